@@ -18,3 +18,7 @@ package handlers
 //@   requires [memo_sound] forall d string :: {has(casMemo, d)} has(casMemo, d) ==> has(bstored, "cas/" + d)
 //@   ensures [missing_output_is_error] !has(fsIsFile, pathJoin(config.Global.WorkspaceRoot, pathJoin(target.Label.Package, output.Identifier))) ==> err != nil
 //@   ensures [nil_on_error] err != nil ==> r == nil
+
+//@ func restoreExecutableBit(path, file) (err)
+//@   pure
+//@   ensures [exec_if_recorded] err == nil && file != nil && file.IsExecutable ==> has(fsExec, path)
